@@ -228,6 +228,9 @@ M('C07', 'sm3-momentum-unquantized', SM3, "        ParameterStats(diagonal_stats
 M('C07', 'new-unbound-local', TS, "  p = len(meta.param_shape) * 2\n\n  with jax.named_scope(\"PthInvRoot\"):", "  if meta.large_axes:\n    p = len(meta.param_shape) * 2\n\n  with jax.named_scope(\"PthInvRoot\"):")
 TW('C07', 'twin-init-helper-inline', DS, "          init_avg_grad(param, frequent_directions and average_grad),\n          init_training_metrics(\n              len(statistics),", "          (jnp.zeros_like(param) if (frequent_directions and average_grad) else optax.MaskedNode()),\n          init_training_metrics(\n              len(statistics),")
 
+M('C07', 'sm3-init-update-swapped', SM3, "  return optax.GradientTransformation(init_fn, update_fn)", "  return optax.GradientTransformation(update_fn, init_fn)")
+M('C07', 'graft-spec-fn-as-update', GR, "      init=init_fn, update=update_fn, init_partition_spec=init_partition_spec_fn", "      init=init_fn, update=init_partition_spec_fn, init_partition_spec=update_fn")
+M('C07', 'sgd-graft-update-as-init', GR, "      grad_transform.init,\n      grad_transform.update,\n      optax.EmptyState,", "      grad_transform.update,\n      grad_transform.init,\n      optax.EmptyState,")
 # ------------------------------------------------------------------ C08
 M(['C08', 'C15'], 'F7-global-eig-cutoff', TS, "  mask = w <= eps * jnp.max(w, axis=-1, keepdims=True)", "  mask = w <= eps * jnp.max(w)")
 M('C08', 'cutoff-over-blocks-axis', TS, "  mask = w <= eps * jnp.max(w, axis=-1, keepdims=True)", "  mask = w <= eps * jnp.max(w, axis=0, keepdims=True)")
